@@ -22,6 +22,7 @@
    timer or the path's termination); pathManager.close() is not in progress. *)
 From Coq Require Import List Arith Bool.
 Require Import MTX.Model.C40_Rendezvous MTX.Proofs.C40_Rendezvous MTX.Proofs.C40_Refuted MTX.Check.C40 MTX.Proofs.C40_Check.
+Require Import MTX.Model.C40_CoreLoop MTX.Proofs.C40_CoreLoop MTX.Proofs.C40_CoreCheck.
 Import ListNotations.
 
 (* progress: in every reachable state either nobody is inside an operation (quiescent), or some step other than an
@@ -112,6 +113,103 @@ Example C40_example_hold :
                  | Some s' => callers s' 0 = CDone (DPaTermAns 0) /\ closer s' = ClDone /\ ppc (paths s' 0) = PaDead
                  | None => False
                  end
+  | None => False
+  end.
+Proof. vm_compute. repeat split. Qed.
+
+(* ==== Core level (Model/C40_CoreLoop.v): the select loop of Core.run (API configuration requests with their
+   request / response rendezvous, confChanged, interrupt, ctx.Done), reloadConf / closeResources closing the API
+   server, api.Close (http.Server.Shutdown, then the handler tracker's wg.Wait() without time-out), the API handlers
+   (any number; body read, Core.APIConfig*: select { send ; <-p.ctx.Done() }, <-res, response), the watcher.
+   `kreachable true` = the code with fix 90f555e (closeAPI refuses the requests that arrive while the API server is
+   being closed); `kreachable false` = the code before it.  kinternal l = false only for the environment: a request
+   arrives (QSpawn), the configuration file changes (QFileChanged), a signal (QInterrupt), Core.Close() (QCancel).
+   kquiescent s = every started request has been answered and its handler has returned, api.Close is not running, and
+   Core.run has terminated or sits in its select with nothing to receive. ==== *)
+
+(* progress: a reachable state is quiescent or some non-environment step is enabled *)
+Theorem C40_core_no_deadlock : forall s, kreachable true s ->
+  kquiescent s \/ exists l s', kinternal l = true /\ kstep true s l = Some s'.
+Proof. intros s HR. apply kprogress. exact (kinv_reachable true s HR). Qed.
+Print Assumptions C40_core_no_deadlock.
+
+(* no livelock: a schedule of internal steps has at most kmeasure s steps (with or without the refusal) *)
+Theorem C40_core_every_schedule_finite : forall refuse s ls s', kreachable refuse s ->
+  forallb kinternal ls = true -> krun refuse s ls = Some s' -> length ls + kmeasure s' <= kmeasure s.
+Proof. intros refuse s ls s' HR. apply kinternal_run_bounded. exact (kinv_reachable refuse s HR). Qed.
+Print Assumptions C40_core_every_schedule_finite.
+
+(* every request that has passed the tracker is answered (accepted, rejected, or refused with "terminated") and its
+   handler returns: WHATEVER the scheduler does, once no internal step is left every handler has returned ... *)
+Theorem C40_core_every_request_answered : forall s ls s', kreachable true s -> krun true s ls = Some s' ->
+  (forall l, kinternal l = true -> kstep true s' l = None) ->
+  forall h, h < nh s' -> exists r, hd s' h = HdDone r.
+Proof.
+  intros s ls s' HR Hrun Hstuck.
+  pose proof (kinv_run _ _ _ _ (kinv_reachable true s HR) Hrun) as I'.
+  destruct (kstuck_quiescent s' I' Hstuck) as [Ha _]. exact Ha.
+Qed.
+Print Assumptions C40_core_every_request_answered.
+
+(* ... and such a schedule exists (of at most kmeasure s steps, by C40_core_every_schedule_finite) *)
+Theorem C40_core_quiesces : forall s, kreachable true s ->
+  exists ls s', forallb kinternal ls = true /\ krun true s ls = Some s' /\ kquiescent s' /\
+                forall h, h < nh s -> exists r, hd s' h = HdDone r.
+Proof.
+  intros s HR. destruct (kquiesces s (kinv_reachable true s HR)) as (ls & s' & Hall & Hrun & Q & Hn).
+  exists ls, s'. split; [exact Hall|split; [exact Hrun|split; [exact Q|]]].
+  intros h Hh. destruct Q as [Ha _]. apply Ha. rewrite Hn. exact Hh.
+Qed.
+Print Assumptions C40_core_quiesces.
+
+(* shutdown: once p.ctx is cancelled (Core.Close(), a signal, a failed reload), whatever the scheduler does, when no
+   internal step is left Core.run has closed p.done, the API server is gone, the watcher has terminated and every
+   request has been answered *)
+Theorem C40_core_shutdown_any_schedule : forall s ls s', kreachable true s -> kctx s = true ->
+  krun true s ls = Some s' -> (forall l, kinternal l = true -> kstep true s' l = None) -> kterminated s'.
+Proof. intros s ls s' HR. apply kshutdown_any_schedule. exact (kinv_reachable true s HR). Qed.
+Print Assumptions C40_core_shutdown_any_schedule.
+
+(* the enabledness test of the Core-level correspondence check is complete *)
+Theorem C40_core_check_settled_sound : forall s fr l s', kreachable true s ->
+  ksettled s fr = true -> kinternal l = true -> kstep true s l = Some s' ->
+  exists q, In q (kinvolves l) /\ existsb (kproc_eqb q) fr = true.
+Proof. intros s fr l s' HR. apply ksettled_sound. exact (kinv_reachable true s HR). Qed.
+Print Assumptions C40_core_check_settled_sound.
+
+(* the code before 90f555e: this state is reachable — Core.run inside api.Close() (tracker: wg.Wait()) after it has
+   answered the accepted edit of handler 0, handler 1 at `select { p.ch <- req ; <-p.ctx.Done() }` with p.ctx alive —
+   and no step but an environment move (Core.Close()) is enabled.  Replayed on the real code: KNOWN_FINDINGS.jsonl
+   (fixed: 90f555e), design_notes/C40.md *)
+Theorem C40_core_no_deadlock_refuted : exists s,
+  kreachable false s
+  /\ co s = CoApiClosing false /\ ac s = AcTracker /\ hd s 0 = HdDone RsOk /\ hd s 1 = HdSend /\ kctx s = false
+  /\ ~ kquiescent s
+  /\ forall l, kinternal l = true -> kstep false s l = None.
+Proof.
+  exists kstuck. split; [exact kstuck_reachable|].
+  destruct kstuck_shape as (H1 & H2 & H3 & H4 & H5 & _).
+  repeat (split; [assumption|]). split; [exact kstuck_not_quiescent|exact kstuck_no_step].
+Qed.
+Print Assumptions C40_core_no_deadlock_refuted.
+
+(* non-vacuity: the same schedule with the refusal goes on: request 1 is answered "terminated", api.Close() returns,
+   the new API server is created and Core.run is back in its select *)
+Example C40_core_example_refusal :
+  match krun true kinit kunstuck_trace with
+  | Some s => co s = CoIdle /\ hd s 0 = HdDone RsOk /\ hd s 1 = HdDone RsRefused /\ ac s = AcNone /\ api_up s = true
+              /\ tr_open s = true
+  | None => False
+  end.
+Proof. exact kunstuck. Qed.
+
+(* non-vacuity: a file reload with a parked request, then shutdown; everything terminates *)
+Example C40_core_example_shutdown :
+  match krun true kinit [QSpawn KdEdit; QFileChanged; QCoConf true true; QCoCloseApi; QAcShutdown; QHBody 0 true;
+                         QCoRefRecv 0; QCoRefAns; QHRet 0; QAcDone; QCoApiClosed; QCoRest true true; QSpawn KdRead;
+                         QCancel; QCoCtx; QCoExit; QWtTerm; QCoWClosed; QCoCloseApi; QAcShutdown; QHRet 1; QAcDone;
+                         QCoApiClosed; QCoRest true true] with
+  | Some s => co s = CoDone /\ hd s 0 = HdDone RsRefused /\ hd s 1 = HdDone RsRead /\ wt s = WtDone /\ api_up s = false
   | None => False
   end.
 Proof. vm_compute. repeat split. Qed.
